@@ -16,8 +16,17 @@ from .. import core, build, gen, shapes, mergerside as M, projection as P
 def one_family(ctx, b, n, fam, merge, dupsort, variant, failtok=-1, srcwrite=False):
     rng = ctx.rng
     wd = ctx.sub("f%d" % n)
-    L = M.setup_lines(wd, fam, variant, merge, dupsort, failtok=failtok, comp=rng.choice(gen.COMPS))
+    L = M.setup_lines(wd, fam, variant, merge, dupsort, failtok=failtok, comp=rng.choice(gen.COMPS), twice=(n % 8 == 6))
     L += ["it_iter 1 m:0", "it_drain 1", "it_destroy 1"]
+    if failtok < 0 and n % 3 == 1:
+        # several iterators of one merger alive at once, advanced in turn (each keeps its own position and its own buffers)
+        L += ["it_iter 1 m:0", "it_iter 2 m:0", "it_next 1 %d" % rng.randint(0, 3), "it_iter 3 m:0"]
+        for _ in range(rng.randint(2, 6)):
+            L += ["it_next %d %d" % (rng.choice([1, 2, 3]), rng.randint(1, 3))]
+        order = [1, 2, 3]
+        rng.shuffle(order)
+        for i in order:
+            L += ["it_drain %d" % i, "it_destroy %d" % i]
     if failtok < 0:
         L += ["it_iter 1 m:0", "it_next 1 3", "it_destroy 1"]            # abandoned iterator
     out = os.path.join(wd, "out.mtbl")
